@@ -204,14 +204,7 @@ UNIT = Unit(
         Decl("src/state.rs", "const", "INTERVAL"),
         Decl("src/state.rs", "const", "MAX_BURST", rewrites=[Rw("R1", r"\bMAX_BURST\b", "MAX_BURST_POS")]),
         Raw(K.LIMITER_SPEC), Raw(K.RATELIMITER_SPEC),
-        Fn("src/draw_target.rs", "RateLimiter", "new", ret="r",
-           requires=[("rate-nonzero", "rate >= 1")],   # documented: "Will panic if refresh_rate is 0"
-           ensures=[
-               ("wf", "r.wf()"),
-               ("full-bucket", "r.capacity == 20"),
-               ("C05-interval-upper", "(r.interval as int - 1) * (rate as int) < 1000"),
-               ("C05-interval-lower", "(r.interval as int) * (rate as int) >= 1000"),
-           ],
+        Fn(**dict(K.RL_NEW,
            proofs=[(r"Self \{", "before", r"""
         proof {
             // division facts for the two usual roundings of 1000 / rate (hints only; the
@@ -222,7 +215,7 @@ UNIT = Unit(
             assert(q2 * rr <= 999 + rr && (q2 + 1) * rr > 999 + rr && q2 >= 1) by (nonlinear_arith) requires q2 == (999 + rr) / rr, 1 <= rr <= 255;
             assert((q1 - 1) * rr == q1 * rr - rr && (q2 - 1) * rr == q2 * rr - rr && (q1 + 1) * rr == q1 * rr + rr && (q2 + 1) * rr == q2 * rr + rr) by (nonlinear_arith);
         }
-""")]),
+""")])),
         Fn(**dict(K.RL_ALLOW, proofs=[(r"self\.capacity = Ord::min", "before", NL_ALLOW),
                                       (r"(?m)^\s*true\s*$", "before", NL_ALLOW_POST)])),
         Fn(**K.POS_ALLOW),
